@@ -569,12 +569,22 @@ func Spec() *mon.Spec {
 			"str:title is checked only for: same length in runes, changes are title-casings of letters not preceded by a letter, letters at the start / after an ASCII space are title-cased",
 			"regex match positions for grammar patterns come from an independent backtracking matcher (leftmost-first); &longest and &posix are only checked for internal consistency of re:find/replace/split",
 			"from-utf8-bytes on the bytes of an invalid string may fail or give the string back",
+			"re:quote law: a literal containing U+FFFD is not searched in subjects with invalid UTF-8 (re.md: 're: wraps Go's regexp package'; Go regexp: 'each byte of an invalid UTF-8 sequence is treated as if it encoded U+FFFD')",
 		},
 		Phases: []mon.Phase{
 			{Name: "str", Quick: 3000, Thorough: 60000, Run: runStr},
 			{Name: "re", Quick: 3000, Thorough: 60000, Run: runRe},
 		},
 		ChildSetup: setup,
-		Floors:     map[string]int{},
+		Floors: map[string]int{"law_join_split": 8000, "law_join_split_empty_sep": 4000, "law_join_split_invalid_utf8": 2500, "law_join_split_max_binding": 700,
+			"law_codepoints_roundtrip": 3000, "law_utf8_bytes_roundtrip": 2500, "count_ge2": 80, "replace_max_binding": 90,
+			"law_find_vs_model": 12000, "law_find_vs_model_with_matches": 4000, "law_find_groups_checked": 2500, "law_longest_or_posix_agreement": 2500,
+			"law_on_ge2_matches": 4000, "law_quote_find": 6000, "law_quote_find_ge2": 1500, "law_quote_find_invalid_subject": 2000,
+			"law_replace_fn": 10000, "law_replace_literal": 20000, "law_replace_template": 12000, "law_replace_template_applied": 3000,
+			"law_split": 20000, "law_split_max_binding": 1200, "calls_re:awk": 2000, "calls_via_source": 800,
+			"calls_str:equal-fold": 300, "calls_str:title": 300, "calls_str:to-lower": 300, "calls_str:to-upper": 300, "calls_str:to-title": 300,
+			"calls_str:trim": 400, "calls_str:trim-left": 400, "calls_str:trim-right": 400, "calls_str:trim-space": 400, "calls_str:fields": 400,
+			"calls_str:compare": 1500, "calls_str:count": 1000, "calls_str:index": 1000, "calls_str:last-index": 1000, "calls_str:contains": 1000,
+			"calls_str:has-prefix": 1000, "calls_str:has-suffix": 1000, "calls_str:replace": 2000, "calls_str:repeat": 1000, "calls_str:index-any": 1000},
 	}
 }
